@@ -16,12 +16,18 @@ DEAD = {"ctok": 0, "live": False, "nm": 0, "im": 0, "upos": (), "apos": (), "hin
 def observe(c, numeric):
     if c is None:
         return dict(DEAD)
-    internal = sorted(c._internal_modes)
+    import numbers
+
+    def pos(p):
+        """a mode position as the implementation stores it; anything that is not an integer type becomes the impossible position 999
+        (the trace specification then rejects the observation instead of the harness failing to print it)"""
+        return int(p) if isinstance(p, numbers.Integral) and not isinstance(p, bool) else 999
+    internal = sorted(pos(p) for p in c._internal_modes)
     h = c.heralds
     ob = {"live": True, "nm": c.n_modes, "im": c.input_modes,
           "upos": tuple(p for p in range(c.n_modes) if p not in internal), "apos": tuple(internal),
-          "hin": tuple(sorted((p, n) for p, n in h["input"].items())),
-          "hout": tuple(sorted((p, n) for p, n in h["output"].items())),
+          "hin": tuple(sorted((pos(p), int(n) if isinstance(n, numbers.Integral) else 999) for p, n in h["input"].items())),
+          "hout": tuple(sorted((pos(p), int(n) if isinstance(n, numbers.Integral) else 999) for p, n in h["output"].items())),
           "U": (), "uerr": False}
     try:
         V = c.U_full
